@@ -112,6 +112,12 @@ class C08(ProgProp):
                     f["ctx"]["#%d" % rng.randint(1, 6)] = [rng.choice(["resume", "pause"]), rng.randint(1, 3)]
             if rng.random() < 0.2:
                 f["callbacks"] = {"#%d" % rng.randint(1, 8): True}
+            if rng.random() < 0.1:
+                f["prio_raises"] = rng.randint(1, 6)
+            if rng.random() < 0.1:
+                f["before_hook_raises"] = rng.randint(1, 4)
+            if rng.random() < 0.15 and len(spec["templates"]) > 1:
+                spec["ext_tasks"] = [rng.randint(1, len(spec["templates"]) - 1)]
             if rng.random() < 0.2:
                 spec["max_stack"] = rng.randint(3, 40)
             if rng.random() < 0.15:
